@@ -10,7 +10,7 @@ ASSUME("timeit:default_timer", params={}, returns="Real", modifies=["G.clock"],
        ensures=[("monotonic", "result >= old(G.clock) and G.clock == result")],
        note="A-clock: the performance counter does not go backwards")
 ASSUME("operator:attrgetter", params={"name": "Str"}, returns="Any", ensures=[("it", "result == attrgetter_of(name)")])
-ASSUME("builtins:sorted", params={"iterable": "List[LRUItem]", "key": "Any=None", "reverse": "Bool=False"}, returns="List[LRUItem]",
+ASSUME("builtins:sorted@mako.util:LRUCache._manage_size", params={"iterable": "List[LRUItem]", "key": "Any=None", "reverse": "Bool=False"}, returns="List[LRUItem]",
        ensures=[("fresh", "fresh(result)"), ("same-length", "len(result) == len(iterable)"),
                 ("same-members", "forall(lambda i: implies(0 <= i and i < len(result), exists(lambda j: 0 <= j and j < len(iterable) and same(result[i], iterable[j]))))"),
                 ("newest-first", "implies(key == attrgetter_of('timestamp') and reverse, forall(lambda i, j: implies(0 <= i and i <= j and j < len(result), result[i].timestamp >= result[j].timestamp)))")],
